@@ -16,7 +16,22 @@ Not translatable (f-strings, regular expressions, slices, tuples as values, str.
 arguments, comprehensions): rangelabel.to_label / from_label, the rest of sorter_chrom,
 vcfsimple.parse_end_from_info / set_ends (.clip(lower=0)), seg.create_chrom_ids, gff.read_gff and
 seg.format_seg (the +1 / -1 sit inside .assign(...) calls); those stay with the data translator
-(tools/genspecs/c08.py: offsets, literals, fingerprints) and the correspondence check."""
+(tools/genspecs/c08.py: offsets, literals, fingerprints) and the correspondence check.
+
+Later ties (the translator has since learnt f-strings of strings / ints and loop iterations): FnFormatsTrack (bedio track2track
+loop), FnFormatsToLabel (rangelabel.to_label whole, C08_source_to_label / _write_text), FnFormatsSegHeader (one iteration of
+parse_seg's header scan, C08_source_seg_header*), FnFormatsGffKeep (read_gff's keep_type filter per row, C08_source_gff_*).  Mutations tried with tools/mut_fn.sh:
+  FnFormatsToLabel    `{row.start + 1}` -> `{row.start}`                               KILLED (source_to_label)
+                      `-{row.end}` -> `-{row.end + 1}`                                 KILLED
+                      `{row.chromosome}:` -> `{row.chromosome}-`                       KILLED
+  FnFormatsSegHeader  `if n_tabs == 0:` -> `if n_tabs == 1:`                           KILLED (source_seg_header)
+                      "probes" dropped from the six column names                       KILLED (the header then fixes 5 columns)
+                      `elif n_tabs == 4:` -> `elif n_tabs == 3:`                       SURVIVED: the translator reads `if c: A
+                          else: raise` as A under the recorded guard `not (n_tabs == 4)`, so this test is in the guard comment
+                          only; the driver gen_find_header states the guard by hand (tabs in {0, 5, 4}) -- the correspondence
+                          check of C08 is what sees this mutation (5-column SEG files stop parsing)
+  FnFormatsGffKeep    `dframe['type'] == keep_type` -> `!= keep_type`                  KILLED (source_gff_keep)
+                      `dframe = dframe[ok_type]` -> `dframe = dframe[~ok_type]`        KILLED"""
 
 _START = "['start'] = "
 
@@ -72,5 +87,39 @@ MODULES = {
              carried=[], yields=['S'],
              params=[('line', 'S'), ("line.startswith('track')", 'B', 'is_track')],
              ret='Y'),
+    ]),
+    # rangelabel.to_label, the WHOLE function (what textcoord.write_text applies to every row): the f-string
+    # f"{row.chromosome}:{row.start + 1}-{row.end}" of a string and two integers.
+    # (Proofs/FnFormatsToLabel.v: C08_source_to_label -- it is Model/Formats.v to_label, hence every line write_text writes)
+    # mutations (tools/mut_fn.sh): `row.start + 1` -> `row.start` KILLED; `}-{row.end}` -> `}-{row.end + 1}` KILLED;
+    # `{row.chromosome}:` -> `{row.chromosome}-` KILLED
+    'FnFormatsToLabel': ('skgenome/rangelabel.py', [
+        dict(name='to_label', coq='fn_to_label', py_params=['row'],
+             params=[('row.chromosome', 'S', 'chrom'), ('row.start', 'Z', 'start'), ('row.end', 'Z', 'end_')],
+             ret='S'),
+    ]),
+    # seg.parse_seg: ONE ITERATION of the header scan `for line in handle:` -- count the tabs; no tab: skip the line
+    # (`continue`); 5 / 4 tabs: the six / five column names and `break`; anything else raises (recorded guard).
+    # (Proofs/FnFormatsSegHeader.v: C08_source_seg_header -- the step iterated over the lines is Model/Formats.v seg_find_header)
+    # mutations (tools/mut_fn.sh): `if n_tabs == 0:` -> `if n_tabs == 1:` KILLED; `"probes",` dropped from the six names KILLED;
+    # `elif n_tabs == 4:` -> `elif n_tabs == 3:` SURVIVED (the test is a recorded guard only, see the docstring)
+    'FnFormatsSegHeader': ('skgenome/tabio/seg.py', [
+        dict(name='parse_seg', coq='fn_seg_header_step',
+             py_params=['infile', 'chrom_names', 'chrom_prefix', 'from_log10'],
+             loop=dict(first='for line in handle', ignore_else=True),
+             carried=[('col_names', 'LS')],
+             params=[('col_names', 'LS'), ("line.count('\\t')", 'Z', 'tabs')],
+             ret=['LS', 'B']),
+    ]),
+    # gff.read_gff: the `keep_type` filter (fragment `if keep_type: ok_type = dframe["type"] == keep_type; <log line>; dframe =
+    # dframe[ok_type]`) read per row as "the record stays in dframe" (row_keep).  keep_type is None or a string: only its
+    # truthiness and its equality with the type column are read, so None enters as the empty string.
+    # (Proofs/FnFormatsGffKeep.v: C08_source_gff_keep -- Model/Formats.v gff_keep, the filter of read_gff_full)
+    # mutations: `dframe['type'] == keep_type` -> `!= keep_type` KILLED; `dframe = dframe[ok_type]` -> `dframe = dframe[~ok_type]` KILLED
+    'FnFormatsGffKeep': ('skgenome/tabio/gff.py', [
+        dict(name='read_gff', coq='fn_gff_keep', py_params=['infile', 'tag', 'keep_type'],
+             fragment=dict(first='if keep_type', last='if keep_type'), row_keep='dframe',
+             init=[('row_keep__', 'B', 'true')], returns=['row_keep__'],
+             params=[('keep_type', 'S'), ("dframe['type']", 'S', 'type_')], ret='B'),
     ]),
 }
